@@ -51,7 +51,10 @@ def _quant_in(is_all):
         body = ctx.zbool(ctx.truth(interp.call(fn, [ctx.wrap(e, ty.args[0])], {})))
         m = mem_fn(ty)(lst.t, e)
         if is_all:
-            return SV(BOOL, z3.ForAll([e], z3.Implies(m, body), patterns=[m]))
+            try:
+                return SV(BOOL, z3.ForAll([e], z3.Implies(m, body), patterns=[m]))
+            except z3.Z3Exception:      # the list term is not a valid pattern (contains an ite): let z3 choose
+                return SV(BOOL, z3.ForAll([e], z3.Implies(m, body)))
         return SV(BOOL, z3.Exists([e], z3.And(m, body)))
     return f
 
